@@ -420,6 +420,7 @@ impl Run {
             return None;
         }
         run.proxy = Some(run.w.addr("proxy"));
+        run.w.names.insert("NOT-AN-ADDRESS".into(), "bad".into());
         // a deployment made by an older release: its version stamp and, optionally, an admin recorded in a
         // spelling today's address validation would refuse (the stored list is what counts, C17)
         let ver = cfg.get("ver").and_then(|x| x.as_str()).unwrap_or("cur");
@@ -645,7 +646,8 @@ fn rand_send(rng: &mut Rng, left: &mut [i64; 2], top: i64) -> Value {
         left[di] = (left[di] - a as i64).max(0);
         coins.push(json!({"d": DENOMS[di], "a": a}));
     }
-    let to = *rng.pick(&["a1", "a4", "r1", "k1"]);
+    // (the recipient is the bank module's business, not the proxy's: also a string the chain would not accept)
+    let to = *rng.pick(&["a1", "a4", "r1", "k1", "r1", "bad"]);
     json!({"k":"send","to":to,"coins":coins,"tag":""})
 }
 
